@@ -120,6 +120,7 @@ var undecidedClauses = map[string][]string{
 	"C08": {"X25519 on low-order / non-canonical points (trusted x/crypto)", "HMAC collision resistance behind 'changes both outputs'"},
 	"C09": {"actual inter-arrival times (sleeps are no-ops in the model)", "equality of client and server tables needs both processes to run with the same -obfs4-distBias flag (configuration assumption)"},
 	"C10": {"memory held inside dependencies (bufio, http.Transport), goroutine liveness, stack depth", "network-facing functions not listed under functions_under_contract in this evidence are not covered yet"},
+	"C11": {"exact membership over a whole history ('seen' exactly for values inserted less than ttl ago): needs sortedness of firstSeen along the list, which holds only under the monotone-clock premise and is not maintained as an invariant", "linearizability is argued by the lock invariant (every critical section sees and re-establishes wf); the mutual exclusion of sync.Mutex itself is trusted", "the code detects a backwards clock only relative to its oldest entry (observation)"},
 	"C12": {"exactness of the floating-point alias tables (floating point is uninterpreted)", "table generation loops (genValues/genWeights/genTables) are not yet under contract"},
 	"C13": {"interoperation with an actual independent obfs3 implementation (the specification is encoded in the postconditions)", "number theory behind the two MODEXP axioms and that modpStr is the 1536-bit RFC 3526 prime", "Dial/WrapConn callers"},
 	"C14": {"interoperation with an actual independent implementation (the specification is encoded in the postconditions instead)", "AES-CTR/SHA-256 themselves (uninterpreted)", "Dial/WrapConn callers and the precondition that the wrapped conn is not itself an obfs2Conn"},
